@@ -9,6 +9,7 @@ CONSTANTS
   TickSteps = {1,2}
   TtlWriteOrder = FALSE
   ClearKeepsTtl = FALSE
+  UpdateFilesOld = FALSE
   EraseToListEnd = FALSE
 VIEW View
 INVARIANTS NoUB ListIsPermutation PartitionMatchesCount BackPointersInverse IndexWithinCapacity TtlListMatches TtlHeadIsMinimal
